@@ -89,7 +89,8 @@ from collections.abc import Callable
 """
 
 
-def make_module(name: str, source: str, prelude: bool = True) -> types.ModuleType:
+def make_module(name: str, source: str, prelude: bool = True,
+                register_source: bool = True) -> types.ModuleType:
     """Executes `source` as the body of a synthetic module whose source text is
     retrievable through linecache (so `inspect.getsourcelines` works) and whose
     module-level frame has `f_locals is module.__dict__`."""
@@ -99,7 +100,8 @@ def make_module(name: str, source: str, prelude: bool = True) -> types.ModuleTyp
         source = PRELUDE + source
     filename = f"<verif:{name}:{_counter}>"
     lines = source.splitlines(True)
-    linecache.cache[filename] = (len(source), None, lines, filename)
+    if register_source:     # otherwise: definitions whose source cannot be retrieved
+        linecache.cache[filename] = (len(source), None, lines, filename)
     mod = types.ModuleType(name)
     mod.__file__ = filename
     sys.modules[name] = mod
